@@ -248,6 +248,7 @@ def check_step(ix, rep, mon, rule='R-STEP'):
     keys = _dict_key_exprs(ix, uv)
     slotp = mon.kind
     check_every_path_steps(ix, rep, uv, slotp, rule)
+    check_no_swallow(ix, rep, mon, rule)
     # each of visitBinary/visitUnary steps its operator exactly once
     for meth, (key, f, n) in sorted(keys.items()):
         rep.analysed(f)
@@ -314,6 +315,36 @@ def check_step(ix, rep, mon, rule='R-STEP'):
         rep.fail(rule, v.module.rel, uv.name, '%s:memo-renewed' % slotp,
                  'the memo `self.%s` is never renewed per update(): values of the previous update would be returned forever'
                  % memo['cache'], memo['line'])
+
+
+def check_no_swallow(ix, rep, mon, rule='R-STEP'):
+    """an exception raised while the operators are being stepped leaves update(): a handler around the traversal that goes on (returns a
+    placeholder) keeps a monitor whose operators have been stepped *in part* -- the ones the walk had reached took the sample, the others did
+    not, and which ones those are depends on the evaluation order (a sub-specification is a root of its own and is stepped before the assertion
+    that refers to it; written in line it is stepped where it stands).  Handlers that end in `raise` (conversion of the exception type) are fine."""
+    n = 0
+    for meth in ('update', 'evaluate'):
+        f = ix.resolve_method(mon.cls, meth)
+        if f is None:
+            continue
+        for t in ast.walk(f.node):
+            if not isinstance(t, ast.Try):
+                continue
+            body_calls = [c for st in t.body for c in ast.walk(st) if isinstance(c, ast.Call) and isinstance(c.func, ast.Attribute)
+                          and c.func.attr in ('visitAst', 'visit', 'visitSpec', 'update')]
+            if not body_calls:
+                continue
+            n += 1
+            rep.analysed(f)
+            slot = '%s:%s:swallow' % (mon.kind, meth)
+            bad = [h for h in t.handlers if not (h.body and isinstance(h.body[-1], ast.Raise))]
+            if bad:
+                rep.fail(rule, f.module.rel, f.qual, slot, '%s() catches %s around the traversal and carries on: the operators the walk had not reached were not stepped for this sample, '
+                         'so from the next sample on the monitor is no function of the samples fed (and a sub-specification, stepped as a root of its own, differs from its inlined '
+                         'form)' % (meth, ast.unparse(bad[0].type) if bad[0].type is not None else 'every exception'), bad[0].lineno)
+            else:
+                rep.ok(rule, f.module.rel, f.qual, slot, 'exceptions raised by the traversal leave %s()' % meth, t.lineno)
+    return n
 
 
 def check_nested_steps(ix, rep, opclasses, label, rule='R-STEP'):
